@@ -11,6 +11,7 @@ PROPS = {
         scan_files=["GraphSlam/Real/*.lean", "GraphSlam/Core/*.lean", "GraphSlam/Props/C10/*Core.lean", "GraphSlam/Props/C10/SE3Boxplus.lean"],
         corr=[("harness.entry", "layer_a", dict(only=["Edge", "Pose", "Util"], quick=25, thorough=400))],
         search=("search.entry", "c01"),
+        always_search=True,
         replay=("search.entry", "replay_jacobian"),
         rule="translator validation: generated calc_error_* / calc_jacobians_* (and every pose definition they call) evaluated at Float vs "
         "edge.calc_error() / edge.calc_jacobians() of real EdgeOdometry / EdgeLandmark objects on stratified inputs (all four pose types, "
@@ -31,6 +32,7 @@ PROPS = {
             ("harness.entry", "graph_chi2", dict(quick=60, thorough=2000)),
         ],
         search=("search.entry", "c02"),
+        always_search=True,
         replay=("search.entry", "replay_generic"),
         rule="(1) translator validation of calc_error_* and BaseEdge.calc_chi2 at Float vs real edges; (2) per random graph (2d/3d/r2/r3/mixed worlds, multi-edges, both vertex orders, "
         "custom edges, cond(Omega) up to 1e8): every edge chi2 vs generated calc_chi2 on the implementation's own error vector, and Graph.calc_chi2() bit-equal to Model.graphChi2 "
@@ -44,11 +46,12 @@ PROPS = {
     ),
     "C03": dict(
         modules=["GraphSlam.Props.C03"],
-        theorem_files=["GraphSlam/Props/C03/*.lean"],
-        scan_files=["GraphSlam/Real/Instance.lean", "GraphSlam/Core/*.lean", "GraphSlam/Model/Assembly.lean"],
+        theorem_files=["GraphSlam/Props/C03/*.lean", "GraphSlam/Props/E2E/Step.lean"],
+        scan_files=["GraphSlam/Real/Instance.lean", "GraphSlam/Core/*.lean", "GraphSlam/Model/Assembly.lean", "GraphSlam/Model/GraphIter.lean", "GraphSlam/Props/C06/*.lean"],
         needs_generated=True,
         corr=[
             ("harness.entry", "assembly", dict(quick=80, thorough=3000)),
+            ("harness.entry", "graphiter", dict(quick=60, thorough=2500)),
             ("harness.entry", "layer_a", dict(only=["BaseEdge"], quick=40, thorough=400)),
         ],
         search=("search.entry", "c03"),
@@ -64,7 +67,8 @@ PROPS = {
         "no key with a>b exists; the gradient dictionary and chi2 are plain sums; for symmetric Omega and distinct vertices one edge contributes exactly the (a,b) block of Jbar^T Omega Jbar and the a block of Jbar^T Omega e (ordered-pair sum), "
         "with a proved counterexample for self-loop edges; the dense fill is proved block by block (assignment is justified by disjoint index ranges; prefix-sum layouts are proved to be layouts), giving assembled_hessian / assembled_gradient: "
         "H[g_u+s,g_w+t] = sum_e sum_{x,y in e}[g_x=g_u, g_y=g_w](J_x^T Omega J_y)[s,t] and b likewise for free vertices, identity/zero for fixed ones.",
-        level_note="Hand model (Model/Assembly.lean) tied by tools/harness/assembly.py; spsolve is a parameter.",
+        level_note="Hand models (Model/Assembly.lean, Model/GraphIter.lean) tied by tools/harness/assembly.py (stage-wise) and tools/harness/graphiter.py (whole iteration on typed graphs, generated formulas inside the model); spsolve is a parameter. "
+        "Props/E2E/Step.lean instantiates the assembly theorems on the typed model: system_hessian / system_gradient (H and b of Model.system are the block sums over the typed edges' own generated errors and Jacobians; gradient indices of the constructor form a layout).",
     ),
     "C04": dict(
         modules=["GraphSlam.Props.C04"],
@@ -111,9 +115,9 @@ PROPS = {
     ),
     "C06": dict(
         modules=["GraphSlam.Props.C06"],
-        theorem_files=["GraphSlam/Props/C06/*.lean", "GraphSlam/Props/C03/Assembled.lean"],
-        scan_files=["GraphSlam/Core/*.lean", "GraphSlam/Model/Assembly.lean", "GraphSlam/Props/C03/*.lean"],
-        corr=[("harness.entry", "assembly", dict(quick=80, thorough=3000))],
+        theorem_files=["GraphSlam/Props/C06/*.lean", "GraphSlam/Props/C03/Assembled.lean", "GraphSlam/Props/E2E/Step.lean"],
+        scan_files=["GraphSlam/Core/*.lean", "GraphSlam/Model/Assembly.lean", "GraphSlam/Model/GraphIter.lean", "GraphSlam/Props/C03/*.lean"],
+        corr=[("harness.entry", "assembly", dict(quick=80, thorough=3000)), ("harness.entry", "graphiter", dict(quick=60, thorough=2500))],
         search=("search.entry", "c06"),
         always_search=True,
         replay=("search.entry", "replay_generic"),
@@ -150,6 +154,7 @@ PROPS = {
         scan_files=["GraphSlam/Core/*.lean", "GraphSlam/Model/NumJac.lean", "GraphSlam/Model/Assembly.lean", "GraphSlam/Props/C16/*.lean", "GraphSlam/Props/C06/*.lean"],
         corr=[("harness.entry", "purity", dict()), ("harness.entry", "numjac", dict(quick=25, thorough=800))],
         search=("search.entry", "c15"),
+        always_search=True,
         replay=("search.entry", "replay_generic"),
         rule="random interleavings of 21 operation kinds (errors, chi2, analytic and numerical Jacobians, gradient/Hessian contributions, assembly, equals, exports, copies, pose operators, +=, optimize) on real graphs; "
         "after every operation a bitwise snapshot of all arrays/flags/ids/object identities is compared with the prediction (unchanged for queries), calls are repeated (identical results), returned arrays are overwritten "
@@ -182,9 +187,9 @@ PROPS = {
     ),
     "C07": dict(
         modules=["GraphSlam.Props.C07"],
-        theorem_files=["GraphSlam/Props/C07/*.lean", "GraphSlam/Theory/GaussNewton.lean"],
-        scan_files=["GraphSlam/Core/*.lean", "GraphSlam/Real/*.lean", "GraphSlam/Props/C09/*.lean", "GraphSlam/Props/C01/*.lean", "GraphSlam/Props/C10/*.lean"],
-        corr=[("harness.entry", "layer_a", dict(only=["Edge", "Pose", "Util"], quick=25, thorough=400)), ("harness.entry", "assembly", dict(quick=40, thorough=1500))],
+        theorem_files=["GraphSlam/Props/C07/*.lean", "GraphSlam/Props/E2E/Frame.lean", "GraphSlam/Theory/GaussNewton.lean"],
+        scan_files=["GraphSlam/Core/*.lean", "GraphSlam/Real/*.lean", "GraphSlam/Props/C09/*.lean", "GraphSlam/Props/C01/*.lean", "GraphSlam/Props/C10/*.lean", "GraphSlam/Model/Assembly.lean", "GraphSlam/Model/GraphIter.lean", "GraphSlam/Props/C06/*.lean"],
+        corr=[("harness.entry", "layer_a", dict(only=["Edge", "Pose", "Util"], quick=25, thorough=400)), ("harness.entry", "assembly", dict(quick=40, thorough=1500)), ("harness.entry", "graphiter", dict(quick=60, thorough=2500))],
         search=("search.entry", "c07"),
         always_search=True,
         replay=("search.entry", "replay_generic"),
@@ -194,13 +199,16 @@ PROPS = {
         technique="Lean 4 proof: group-law rewriting with kernel-checked sympy certificates; uniqueness of the Frechet derivative (C01) for the Jacobians; abstract change-of-variables theorem",
         level_text="Proved on the regenerated definitions: (T(+)b)(-)(T(+)a)=b(-)a; every odometry and landmark error (all four pose types) is unchanged by left-composition with T (landmark points moved by the action); box-plus is left-equivariant for every increment (both SE(3) branches); "
         "T.(l+d)=T.l+R_T d; the Jacobian of a pose vertex is the same matrix in both frames (uniqueness of the derivative + C01); an invertible change of variables that does not mix fixed and free unknowns maps solutions of the assembled system to solutions (reparam_solves). "
-        "The iteration-by-iteration commutation is the composition of these; it is stated piecewise, and explored end-to-end every run.",
-        level_note="The trajectory clause is assembled from proved pieces rather than one theorem over the whole optimiser model.",
+        "End to end (Props/E2E/Frame.lean, on the typed-graph model of a whole iteration Model.step, which tools/harness/graphiter.py ties to the real optimize(max_iter=1)): the Jacobian of every pose vertex is the same matrix in both frames "
+        "(SE(2) unconditionally - also on the wrap - via the wrap-free error; SE(3) and R^n by uniqueness of the derivative), hence linearisation, contributions, accumulation, dense fill, solve and update commute with T: "
+        "trajectory_frame_SE2 / _SE3 / _R2 / _R3 - for ANY solver and ANY number of iterations the k-iteration state of the transformed graph is T applied to the k-iteration state of the original (SE(2)/SE(3) graphs whose vertices are all poses; R^2/R^3 graphs with every edge class). "
+        "Graphs mixing SE(n) poses with R^n landmark vertices: the pieces (error invariance, pose-vertex Jacobian invariance, T.(l+d)=T.l+R_T d, reparam_solves) are proved, their composition over the whole iteration is explored every run, not one theorem.",
+        level_note="For graphs with landmark *vertices* in SE(2)/SE(3) worlds the assembled system is conjugated by an orthogonal block matrix; the end-to-end statement there needs a solver hypothesis and is assembled from proved pieces.",
     ),
     "C08": dict(
         modules=["GraphSlam.Props.C08"],
-        theorem_files=["GraphSlam/Props/C08/*.lean"],
-        scan_files=["GraphSlam/Core/*.lean", "GraphSlam/Real/Instance.lean", "GraphSlam/Props/C03/*.lean", "GraphSlam/Theory/*.lean"],
+        theorem_files=["GraphSlam/Props/C08/*.lean", "GraphSlam/Props/E2E/Step.lean"],
+        scan_files=["GraphSlam/Core/*.lean", "GraphSlam/Real/Instance.lean", "GraphSlam/Props/C03/*.lean", "GraphSlam/Theory/*.lean", "GraphSlam/Model/Assembly.lean", "GraphSlam/Model/GraphIter.lean", "GraphSlam/Props/C06/*.lean"],
         corr=[("harness.entry", "layer_a", dict(only=["Edge", "PoseSE3", "PoseSE2", "Util"], quick=25, thorough=400)), ("harness.entry", "assembly", dict(quick=40, thorough=1500))],
         search=("search.entry", "c08"),
         always_search=True,
@@ -223,6 +231,7 @@ PROPS = {
         scan_files=["GraphSlam/Real/*.lean", "GraphSlam/Core/*.lean"],
         corr=[("harness.entry", "layer_a", dict(only=["Pose", "Util"], quick=25, thorough=400))],
         search=("search.entry", "c09"),
+        always_search=True,
         replay=("search.entry", "replay_generic"),
         rule="translator validation of every generated pose definition (constructors, copy, to_matrix, inverse, (+) in its three dispatch branches, (-), "
         "normalize) at Float vs the real methods on stratified inputs; non-trivial = definition has arguments",
@@ -259,6 +268,7 @@ PROPS = {
         scan_files=["GraphSlam/Real/*.lean", "GraphSlam/Core/*.lean"],
         corr=[("harness.entry", "layer_a", dict(only=["Pose", "Util"], quick=25, thorough=400))],
         search=("search.entry", "c10"),
+        always_search=True,
         replay=("search.entry", "replay_jacobian"),
         rule="translator validation: every generated pose definition evaluated at Float vs the real method on stratified inputs "
         "(quaternion sign patterns, w=0, near-identity, near-180deg, angles near +-pi and beyond, |t| up to 1e4, box-plus increments on both sides of |dv|=1); "
@@ -276,6 +286,7 @@ PROPS = {
         needs_generated=False,
         corr=[("harness.equals", "entry", dict())],
         search=("search.equals", "entry"),
+        always_search=True,
         replay=("search.equals", "replay"),
         rule="every pair of real objects is abstracted (harness/cmpobj.py reads the objects' own attributes) to the descriptors of Model/Equals.lean, the model is run at Float by gsdriver_cmp, "
         "and the outcome True/False/<exception class> is compared exactly with x.equals(y) in both directions, with the default tolerance (argument omitted) and tol=1e-3: "
@@ -302,6 +313,7 @@ PROPS = {
         needs_generated=False,
         corr=[("harness.validity", "entry", dict())],
         search=("search.validity", "entry"),
+        always_search=True,
         replay=("search.validity", "replay"),
         rule="Graph(edges, vertices) on real objects vs Model/Validity.lean `construct` (gsdriver_cmp): accepted / KeyError / AssertionError compared exactly; for accepted graphs `edge.vertices[k] is vertices[j]` for the index j the model reports, "
         "every gradient_index and _len_gradient. Table: edge class (odometry, landmark, 4 custom) x vertex count 1..3 x pose class of each endpoint x estimate class (4 poses, ndarray, None, float) x offset class x information shape (r,c) in 1..7^2 "
@@ -359,6 +371,7 @@ PROPS = {
         needs_generated=False,
         corr=[("harness.entry", "g2o", dict(quick=(300, 5000), thorough=(2000, 30000)))],
         search=("search.entry", "c14"),
+        always_search=True,
         replay=("search.entry", "replay_g2o"),
         rule="same Layer-B tie as C13, weighted towards generated files: per file the model's readlines/strip/rstrip/split equal Python's, and Graph.from_g2o / load_g2o / load_g2o_r2 / _r3 / _se2 / _se3 "
         "(chosen at random) equal Model.G2O.Graph.fromG2O / Loader.run bitwise, including the log records and the exception class on the malformed stream "
